@@ -1,14 +1,19 @@
 // Differential + oracle harness for C10 (overloaded functions dispatch on argument types).
 //
 // Part A (dispatch, property oracle): generated overload sets × ALL listing orders × styles
-//   (function literals, named functions, mixed, methods `(T).name`, binary operators) are
-//   compiled by the real XGo compiler (one program per run) and run; every candidate records its
-//   identity, every call reports which candidate ran.
+//
+//	(function literals, named functions, mixed, methods `(T).name`, binary operators) are
+//	compiled by the real XGo compiler (one program per run) and run; every candidate records its
+//	identity, every call reports which candidate ran.
+//
 // Part B (encoding tie): the `Gopo_…` constant and the `name__<digit>` functions found in the
-//   generated Go of every declaration vs the model's `encode`; rejected declarations (invalid
-//   method / func / recv, 37 literal candidates) vs the model's error outcome.
+//
+//	generated Go of every declaration vs the model's `encode`; rejected declarations (invalid
+//	method / func / recv, 37 literal candidates) vs the model's error outcome.
+//
 // Part C (decoding tie): gogen.InitThisGopPkgEx called directly on synthetic package scopes vs
-//   the model's `decodeConst` / `decodeNoConst`.
+//
+//	the model's `decodeConst` / `decodeNoConst`.
 package main
 
 import (
@@ -16,10 +21,10 @@ import (
 	"go/ast"
 	"go/constant"
 	goparser "go/parser"
-	"io"
-	"log"
 	gotoken "go/token"
 	"go/types"
+	"io"
+	"log"
 	"os"
 	"path/filepath"
 	"regexp"
